@@ -639,7 +639,7 @@ def only_called_by(prog, target, allowed_items, depth=0):
     return True
 
 
-def who_writes(chk, prog, cx):
+def who_writes(chk, prog, cx, rule="C06.O5"):
     """A5: every write / &mut borrow of Page.{bytes,width,height} and every construction of Page, in all four crates."""
     allowed_writers = {"set_pixel", "set_all_pixels"}
     n_sites = 0
@@ -658,7 +658,7 @@ def who_writes(chk, prog, cx):
                     hit = [e for e in s["place"]["proj"] if e["k"] == "field" and e.get("of") == PAGE]
                     if hit:
                         n_sites += 1
-                        chk.ob("C06.O5", "no assignment through Page.%s outside the pixel setters (%s)" % (hit[0]["name"], f["name"]), False, key="page:field-assign:%s:%s" % (hit[0]["name"], f["name"]),
+                        chk.ob(rule, "no assignment through Page.%s outside the pixel setters (%s)" % (hit[0]["name"], f["name"]), False, key="page:field-assign:%s:%s" % (hit[0]["name"], f["name"]),
                                where=loc(s.get("span")))
                     r = s["rvalue"]
                     if r["rv"] in ("ref", "rawptr") and r.get("mut", r["rv"] == "rawptr"):
@@ -669,11 +669,11 @@ def who_writes(chk, prog, cx):
                             if not inside and hit[0]["name"] == "bytes" and imp.get("self_adt") == PAGE and "trait" not in imp and str(f.get("vis", "")).startswith("restricted:flipdot_core::page"):
                                 # a private helper of Page is fine when only the two setters (or such helpers) call it
                                 inside = only_called_by(prog, f, allowed_writers)
-                            chk.ob("C06.O5", "&mut Page.%s is taken only in set_pixel / set_all_pixels or a private helper only they call (%s)" % (hit[0]["name"], f["name"]), inside,
+                            chk.ob(rule, "&mut Page.%s is taken only in set_pixel / set_all_pixels or a private helper only they call (%s)" % (hit[0]["name"], f["name"]), inside,
                                    key="page:mut-borrow:%s:%s" % (hit[0]["name"], f["name"]), where=loc(s.get("span")))
                     if r["rv"] == "aggregate" and r.get("agg") == "adt" and r.get("adt") == PAGE:
                         ctor_sites.append((f, s))
-    chk.floor("C06.O5", "&mut borrows of Page.bytes found", n_sites, 1)
+    chk.floor(rule, "&mut borrows of Page.bytes found", n_sites, 1)
     for f, s in ctor_sites:
         imp = f.get("impl") or {}
         ok = imp.get("self_adt") == PAGE and ((f.get("item") in ("new", "from_bytes") and "trait" not in imp) or (imp.get("automatically_derived") and f.get("item") == "clone"))
@@ -682,16 +682,16 @@ def who_writes(chk, prog, cx):
             outer = prog.fns.get(f["path"].split("::{closure#")[0])
             oimp = (outer or {}).get("impl") or {}
             ok = outer is not None and oimp.get("self_adt") == PAGE and "trait" not in oimp and outer.get("item") in ("new", "from_bytes")
-        chk.ob("C06.O5", "Page values are constructed only by Page::new / Page::from_bytes / derived Clone (%s)" % f["name"], ok, key="page:ctor:%s" % f["name"], where=loc(s.get("span")))
-    chk.floor("C06.O5", "Page construction sites", len(ctor_sites), 2)
+        chk.ob(rule, "Page values are constructed only by Page::new / Page::from_bytes / derived Clone (%s)" % f["name"], ok, key="page:ctor:%s" % f["name"], where=loc(s.get("span")))
+    chk.floor(rule, "Page construction sites", len(ctor_sites), 2)
     # field visibility
     a = prog.adts[PAGE]
     for fl in a["variants"][0]["fields"]:
-        chk.ob("C06.O5", "Page.%s is private to its module" % fl["name"], fl["vis"].startswith("restricted:flipdot_core::page"), key="page:field-vis:%s" % fl["name"], detail=fl["vis"])
+        chk.ob(rule, "Page.%s is private to its module" % fl["name"], fl["vis"].startswith("restricted:flipdot_core::page"), key="page:field-vis:%s" % fl["name"], detail=fl["vis"])
     # the &mut Vec from to_mut flows only into indexing / sub-slice fill: checked path-wise above (one store / one fill per path, no other call taking it)
     for nm in ("set_pixel", "set_all_pixels"):
         ev, paths = cx.run(nm)
         for p in paths:
             bad = [e[1] for e in p.trace if e[0] == "call" and not e[1].startswith("core::panicking")]
-            chk.ob("C06.O5", "%s hands the mutable bytes to no other function" % nm, not bad, key="page:%s:escape" % nm, where=loc(cx.fn[nm]["span"]), detail=str(bad[:2]))
-    chk.ob("C06.O5", "no unsafe code in the workspace (borrowed source bytes cannot be mutated behind Cow)", not prog.unsafe_sites, key="unsafe", detail=str(prog.unsafe_sites[:2]))
+            chk.ob(rule, "%s hands the mutable bytes to no other function" % nm, not bad, key="page:%s:escape" % nm, where=loc(cx.fn[nm]["span"]), detail=str(bad[:2]))
+    chk.ob(rule, "no unsafe code in the workspace (borrowed source bytes cannot be mutated behind Cow)", not prog.unsafe_sites, key="unsafe", detail=str(prog.unsafe_sites[:2]))
